@@ -62,9 +62,13 @@ class StrSym(Sym):
         return f"<{self.t}>"
 
     def endswith(self, suf):
+        if isinstance(suf, tuple):  # str.endswith(tuple) is the disjunction over its elements
+            return Sym(z3.Or(*[z3.SuffixOf(sterm(x), self.t) for x in suf])) if suf else False
         return Sym(z3.SuffixOf(sterm(suf), self.t))
 
     def startswith(self, pre):
+        if isinstance(pre, tuple):
+            return Sym(z3.Or(*[z3.PrefixOf(sterm(x), self.t) for x in pre])) if pre else False
         return Sym(z3.PrefixOf(sterm(pre), self.t))
 
     def isdigit(self):
@@ -1514,6 +1518,7 @@ def install(reg):
         return n is not None and n.kind == "dir"
 
     M[os.path.exists] = m_exists
+    M[os.path.lexists] = m_exists  # this ghost file system has no symbolic links (C08's has): lexists == exists
     M[os.path.isdir] = m_isdir
 
     def m_rmtree(interp, p, *a, **k):
